@@ -475,6 +475,11 @@ pub async fn clear_buffered_meta_loop(
 
                 match res {
                     Ok((buf_count, seq_count)) => {
+                        #[cfg(feature = "verif")]
+                        klukai_types::verif::emit(
+                            "clear_meta_round",
+                            serde_json::json!({"actor": actor_id, "start": versions.start(), "end": versions.end(), "buf": buf_count, "seq_rows": seq_count, "self": self_actor_id}),
+                        );
                         if buf_count + seq_count > 0 {
                             assert_sometimes!(true, "Corrosion clears buffered meta");
                             info!(%actor_id, %self_actor_id, "cleared {} buffered meta rows for versions {versions:?}", buf_count + seq_count);
